@@ -536,12 +536,617 @@ def relay_audience(ctx):
                                       "correspondence_mismatches": mism}
 
 
+# ---------------------------------------------------------------------------
+# notes on 'me' + p2p + group topics: unsubscribed (deleted) parties, sessions on 'me' only, the {info} copies
+# routed through the 'me' topics.  Model: coq/Sys/Pres.v + Sys/PresNoteC09.v (theorems c09_pres_* of PropC09.v);
+# driver: harness/overlay/server/zz_verif_c09x_test.go (the C10 presence driver's scenarios, sessions and dump,
+# plus full {info} frames, adapter calls and marks); runner: harness/runner/r_c09x.ml.
+
+PN_R, PN_W, PN_P = 2, 4, 8
+
+
+def pn_parse(lines):
+    """c10.parse_blocks plus the lines of the c09x driver/runner: I (info frames of a note), K (adapter calls),
+    E (replies without id), LC/LS (lastID / seqid), MC/MS (cached / stored marks)"""
+    from props import c10
+    res = c10.parse_blocks(lines)
+    cur, op = None, None
+    for ln in lines:
+        if not ln:
+            continue
+        w = ln.split()
+        if w[0] == "scn":
+            cur, op, k = res.get(w[1]), None, -1
+        elif w[0] == "op" and cur is not None:
+            k += 1
+            op = cur[k] if k < len(cur) else None
+            if op is not None:
+                op.update({"info": [], "calls": None, "err": [], "marks": []})
+        elif w[0] == "end":
+            cur, op = None, None
+        elif op is None:
+            continue
+        elif w[0] == "I":
+            op["info"].append(ln[2:])
+        elif w[0] == "K":
+            op["calls"] = (int(w[1]), w[2] if len(w) > 2 else "")
+        elif w[0] == "E":
+            op["err"].append(ln)
+        elif w[0] in ("LC", "LS", "MC", "MS"):
+            op["marks"].append(ln)
+    return res
+
+
+class PNView:
+    """one quiescent point: the C10 view plus marks, {info} frames in full, adapter calls"""
+    def __init__(self, b):
+        from props import c10
+        self.b = b
+        self.v = c10.View(b) if b is not None else None
+        self.frames = self.v.frames if self.v else []            # (sid, top, src, what) as strings
+        self.topics = self.v.topics if self.v else {}
+        self.rows = self.v.rows if self.v else {}
+        self.cusers = {}     # (topic, user) -> dict(want, given, deleted): the live topic's perUser entry
+        self.info = []       # (sid, top, src, what, from, seq or None)
+        self.mc, self.ms, self.lc, self.ls = {}, {}, {}, {}
+        self.calls = b.get("calls") if b else None
+        self.ctrl = list(b["ctrl"]) + list(b.get("err", [])) if b else []
+        if b is None:
+            return
+        for l in b["state"]:
+            w = l.split()
+            if w[0] == "U":
+                kv = dict(x.split("=", 1) for x in w if "=" in x)
+                self.cusers[(w[1], int(w[2]))] = dict(want=int(kv["want"]), given=int(kv["given"]), deleted=kv.get("deleted") == "1")
+        for l in b.get("info", []):
+            w = l.split()
+            kv = dict(x.split("=", 1) for x in w if "=" in x)
+            self.info.append((int(w[0]), w[1], w[2], w[3][2:], kv.get("from", "?"), int(kv["seq"]) if "seq" in kv else None))
+        for l in b.get("marks", []):
+            w = l.split()
+            if w[0] == "LC":
+                self.lc[w[1]] = int(w[2])
+            elif w[0] == "LS":
+                self.ls[w[1]] = int(w[2])
+            elif w[0] == "MC":
+                self.mc[(w[1], int(w[2]))] = (int(w[3]), int(w[4]))
+            elif w[0] == "MS":
+                self.ms[(w[1], int(w[2]))] = (int(w[3]), int(w[4]))
+
+    def attached(self, sid, tk):
+        return tk in self.topics and any(s == sid for (s, _, _) in self.topics[tk]["sess"])
+
+    def sub_state(self, tk, u):
+        """-> (stored row live, cached entry live, effective mode as stored or None, as cached or None)"""
+        r, c = self.rows.get((tk, u)), self.cusers.get((tk, u))
+        sl = r is not None and not r["deleted"]
+        cl = c is not None and not c["deleted"]
+        return sl, cl, (r["want"] & r["given"]) if sl else None, (c["want"] & c["given"]) if cl else None
+
+
+def pn_note_class(prev, sid, u, tk, what, seq):
+    """What the property demands for a {note} that reached the server, judged on the IMPLEMENTATION's own state
+    before the request.  -> (class, why): invalid / unsubscribed / unpermitted / stale are to be dropped silently;
+    valid is accepted; other = the live topic and the store disagree about the subscription (C08's business):
+    no demand."""
+    if what not in ("read", "recv", "kp"):
+        return "invalid", "unknown kind"
+    if what in ("read", "recv") and seq <= 0:
+        return "invalid", "seq <= 0"
+    if what == "kp" and seq != 0:
+        return "invalid", "typing note with a seq"
+    if tk not in prev.topics:
+        return "invalid", "topic not loaded"
+    if seq > prev.lc.get(tk, 0):
+        return "invalid", "seq beyond the latest message (%d)" % prev.lc.get(tk, 0)
+    sl, cl, sm, cm = prev.sub_state(tk, u)
+    if not sl and not cl:
+        r = prev.rows.get((tk, u))
+        return "unsubscribed", ("subscription deleted" if r is not None else "never subscribed")
+    if sl != cl:
+        return "other", ""
+    need = PN_W if what == "kp" else PN_R
+    if not (sm & need) and not (cm & need):
+        return "unpermitted", "no W" if what == "kp" else "no R"
+    if bool(sm & need) != bool(cm & need):
+        return "other", ""
+    if what != "kp":
+        mark = prev.mc.get((tk, u), (0, 0))[0 if what == "read" else 1]
+        if seq <= mark:
+            return "stale", "%s mark is %d" % (what, mark)
+    return "valid", ""
+
+
+def pn_not_silent(prev, v, tk):
+    out = []
+    if v.frames or v.info:
+        out.append("frames %s" % ([" ".join(f) for f in v.frames] + ["I " + " ".join(str(x) for x in i) for i in v.info]))
+    if v.ctrl:
+        out.append("reply %s" % v.ctrl)
+    if v.calls and v.calls[0]:
+        out.append("%d adapter call(s) [%s]" % v.calls)
+    for name, a, b in (("stored marks", prev.ms, v.ms), ("cached marks", prev.mc, v.mc), ("lastID", prev.lc, v.lc), ("seqid", prev.ls, v.ls)):
+        ch = sorted((k, a.get(k), b.get(k)) for k in set(a) | set(b) if a.get(k) != b.get(k))
+        if ch:
+            out.append("%s changed: %s" % (name, ch))
+    return out
+
+
+def pn_own_name(tk, ru):
+    """the recipient's own name for the topic, as the frames are printed"""
+    if tk[0] == "g":
+        return tk
+    a, b = (int(x) for x in tk[1:].split("."))
+    if ru not in (a, b):
+        return None
+    return "u%d" % (b if ru == a else a)
+
+
+def pn_monitor(sc, views):
+    """C09 on the implementation's trace of a presence scenario.  -> [(law, op index, detail)]"""
+    from props import c10
+    res = []
+    prev = PNView(None)
+    for k, v in enumerate(views):
+        kind, args = sc.ops[k]
+        actor = sc.sessions.get(int(args[0])) if args and str(args[0]).lstrip("-").isdigit() and kind not in ("unload", "unload1", "unload2") else None
+        acked = any(c.split()[1] == "202" for c in v.b["ctrl"] if c.split()[0] == str(args[0])) if kind == "pub" else False
+        # ---- marks: bounds, never backwards, who moves them (subscriptions that are live before and after)
+        for (tk, u), (rd, rc) in v.ms.items():
+            r1, r0 = v.rows.get((tk, u)), prev.rows.get((tk, u))
+            if r1 is None or r1["deleted"]:
+                continue
+            top = v.ls.get(tk, 0)
+            if not (0 <= rd <= top and 0 <= rc <= top):
+                res.append(("stored-marks-bounds", k, "topic %s user %d stored read=%d recv=%d latest=%d" % (tk, u, rd, rc, top)))
+            if r0 is None or r0["deleted"] or (tk, u) not in prev.ms:
+                continue
+            p = prev.ms[(tk, u)]
+            if rd < p[0] or rc < p[1]:
+                res.append(("marks-monotone", k, "topic %s user %d stored marks moved back: read %d->%d recv %d->%d by %s %s"
+                            % (tk, u, p[0], rd, p[1], rc, kind, args)))
+            if (rd, rc) != p and not (actor == u and (kind == "note" or (kind == "pub" and acked))):
+                res.append(("mark-moved-by-other", k, "topic %s: stored marks of user %d changed %s->%s by %s %s of user %s"
+                            % (tk, u, p, (rd, rc), kind, args, actor)))
+        for (tk, u), (rd, rc) in v.mc.items():
+            c1, c0 = v.cusers.get((tk, u)), prev.cusers.get((tk, u))
+            if c1 is None or c1["deleted"]:
+                continue
+            top = v.lc.get(tk, 0)
+            if not (0 <= rd <= top and 0 <= rc <= top):
+                res.append(("cached-marks-bounds", k, "topic %s user %d cached read=%d recv=%d lastid=%d" % (tk, u, rd, rc, top)))
+            if c0 is None or c0["deleted"] or (tk, u) not in prev.mc or tk not in prev.topics:
+                continue
+            p = prev.mc[(tk, u)]
+            if rd < p[0] or rc < p[1]:
+                res.append(("cached-marks-monotone", k, "topic %s user %d cached marks moved back: read %d->%d recv %d->%d by %s %s"
+                            % (tk, u, p[0], rd, p[1], rc, kind, args)))
+            if (rd, rc) != p and not (actor == u and (kind == "note" or (kind == "pub" and acked))):
+                res.append(("mark-moved-by-other", k, "topic %s: cached marks of user %d changed %s->%s by %s %s of user %s"
+                            % (tk, u, p, (rd, rc), kind, args, actor)))
+        # ---- notes
+        if kind == "note" and not v.b["skipped"]:
+            sid, ref, what, seq = int(args[0]), args[1], args[2], int(args[3])
+            u = sc.sessions[sid]
+            tk = c10.rel_topic(u, ref)
+            cls, why = pn_note_class(prev, sid, u, tk, what, seq)
+            if cls in ("invalid", "unsubscribed", "unpermitted", "stale"):
+                bad = pn_not_silent(prev, v, tk)
+                if bad:
+                    law = "note-from-unsubscribed-user-silent" if cls == "unsubscribed" else cls + "-note-silent"
+                    res.append((law, k, "%s note %s seq=%d (%s) from session %d of user %d to %s was not dropped silently: %s"
+                                % (cls, what, seq, why, sid, u, tk, "; ".join(bad)[:700])))
+            # a mark of the sender moved: the sender is subscribed with R, as the live topic or the store sees it
+            moved = any(a.get((tk, u)) != b.get((tk, u)) for a, b in ((prev.ms, v.ms), (prev.mc, v.mc)) if (tk, u) in a and (tk, u) in b)
+            if moved:
+                sl, cl, sm, cm = prev.sub_state(tk, u)
+                if not ((sl and sm & PN_R) or (cl and cm & PN_R)):
+                    res.append(("note-needs-read", k, "a mark of user %d in %s moved by a note although the user has no live subscription with R "
+                                "(stored live=%s mode=%s, cached live=%s mode=%s)" % (u, tk, sl, sm, cl, cm)))
+            for (rs, top, src, wh, frm, sq) in v.info:
+                ru = sc.sessions.get(rs)
+                if rs == sid:
+                    res.append(("info-not-to-originating-session", k, "the {info %s} of the note came back to the originating session %d (on %s, src %s)"
+                                % (wh, rs, top, src)))
+                if frm != str(u):
+                    res.append(("info-names-true-sender", k, "{info %s} to session %d on %s names user %s as the sender; the note was sent by user %d"
+                                % (wh, rs, top, frm, u)))
+                own = pn_own_name(tk, ru)
+                if own is not None and not ((top == "me" and src == own) or (top == own and src == own)):
+                    res.append(("info-names-recipients-topic", k, "{info %s} to session %d of user %d is labelled topic=%s src=%s; the user's name for %s is %s"
+                                % (wh, rs, ru, top, src, tk, own)))
+                if wh == "kp" and ru == u:
+                    res.append(("kp-not-to-typist", k, "typing note reached session %d of the typist (on %s)" % (rs, top)))
+                if wh != what:
+                    res.append(("info-kind", k, "a {note %s} was relayed as {info %s} to session %d" % (what, wh, rs)))
+                modes = [x.v.eff(tk, ru) for x in (prev, v) if x.v is not None]
+                if ru is not None and not any(m is not None and m & PN_R for m in modes):
+                    res.append(("info-readers-only", k, "{info %s} reached session %d of user %d who has no live subscription with R to %s (modes before/after %s)"
+                                % (wh, rs, ru, tk, modes)))
+                if top != "me" and not (prev.attached(rs, tk) or v.attached(rs, tk)):
+                    res.append(("info-attached-only", k, "{info %s} labelled as coming from inside %s reached session %d which is not attached to it" % (wh, tk, rs)))
+            for (rs, top, src, wh) in v.frames:
+                if int(rs) == sid and wh in ("read", "recv"):
+                    res.append(("pres-not-to-originating-session", k, "{pres %s} about the note's own mark came back to the originating session %d" % (wh, sid)))
+        else:
+            inf = [f for f in v.frames if f[3].startswith("i:")]
+            if inf:
+                res.append(("info-only-from-notes", k, "{info} frames %s produced by %s %s" % (inf, kind, args)))
+        prev = v
+    return res
+
+
+def pn_marks(mv, tk, u):
+    """(read, recv, lastid, loaded) of user u in topic tk in the MODEL's state"""
+    if mv is None:
+        return 0, 0, 0, False
+    loaded = tk in mv.topics
+    rd, rc = mv.mc.get((tk, u)) or mv.ms.get((tk, u)) or (0, 0)
+    return rd, rc, (mv.lc.get(tk) if loaded else mv.ls.get(tk)) or 0, loaded
+
+
+def pn_aim(rng, rd, rc, last, accept):
+    """a seq for a recv note: inside (recv, lastID] when `accept`, else on or beyond a boundary"""
+    if accept and rc < last:
+        return rng.choice([rc + 1, last, last, rng.randint(rc + 1, last)])
+    return rng.choice([rc, rc, last + 1, last + 1, 0, -1, max(1, rc - 1), 1, last + rng.choice([2, 100000]), rd])
+
+
+def pn_gen(ctx, count):
+    """Model-guided note scenarios on 'me' + p2p (+ group) topics.  Users a, b (+ c); user x has the observer session
+    2x-1 (on 'me' only), the worker session 2x (attaches to the topics) and user a a second device 2n+1.  Skeleton:
+    observers on 'me', a and b attach to their p2p topic (in some: a group owned by b with a and sometimes c as
+    members), a publishes once, b several times (so that a's recv mark is below lastID).  Then, by shape:
+      unsub     a unsubscribes ({leave unsub}; p2p entry kept, deleted) while b keeps the topic loaded
+      gunsub    a leaves the group for good / is evicted by the owner / was never invited
+      detached  a's worker detaches (the subscription stays); a's sessions on 'me' only acknowledge receipt
+      perm      a gives up R (or W)
+    followed by probes: notes from a's observer / worker / second device with seq aimed (from the extracted MODEL's
+    marks) inside (recv, lastID] - the ones a correct server must drop only BECAUSE of the deleted subscription, or
+    must relay without echo - and on every boundary; interleaved with b's publishes and own notes, a's
+    re-subscription, attach/detach of observers."""
+    from props import c10
+    rng = ctx.rng
+    scns, plans = [], {}
+    shapes = ["unsub", "detached", "unsub", "detached", "gunsub", "perm", "unsub", "detached", "gunsub"]
+    for i in range(count):
+        sc = c10.Scn("n%d" % i)
+        sc.profile = "pn"
+        shape = shapes[i % len(shapes)]
+        n = 3 if (shape == "gunsub" or rng.random() < 0.3) else 2
+        sc.nusers = n
+        a, b = rng.choice([(1, 2), (2, 1)])
+        c = 3
+        for x in range(1, n + 1):
+            sc.sessions[2 * x - 1] = x
+            sc.sessions[2 * x] = x
+        dev2 = 2 * n + 1
+        sc.sessions[dev2] = a
+        grp = shape == "gunsub"
+        ref = "g1" if grp else "p%d" % b          # a's name for the topic
+        bref = "g1" if grp else "p%d" % a
+        tk = c10.rel_topic(a, ref)
+        stranger = grp and i % 3 == 2
+        ops = []
+        for x in range(1, n + 1):
+            if x == a or rng.random() < 0.85:
+                ops.append(("att", [2 * x - 1, "me", 0]))
+            if rng.random() < 0.35:
+                ops.append(("att", [2 * x, "me", 0]))      # a worker that is on 'me' AND in the topic (SkipTopic decides)
+        if grp:
+            ops.append(("new", [2 * b, 1, 0]))
+            if not stranger:
+                ops.append(("given", [2 * b, "g1", a, 47]))
+                ops.append(("att", [2 * a, "g1", 0]))
+            ops.append(("given", [2 * b, "g1", c, rng.choice([47, 47, 39])]))
+            if rng.random() < 0.6:
+                ops.append(("att", [2 * c, "g1", 0]))
+        else:
+            first = rng.choice([a, b])
+            ops.append(("att", [2 * first, "p%d" % (b if first == a else a), 0]))
+            ops.append(("att", [2 * (b if first == a else a), "p%d" % first, 0]))
+            if rng.random() < 0.3:
+                ops.append(("att", [dev2, ref, 0]))
+        if not stranger and rng.random() < 0.7:
+            ops.append(("pub", [2 * a, ref]))
+        for _ in range(rng.randint(2, 4)):
+            ops.append(("pub", [2 * b, bref]))
+        sc.ops = ops
+        plan = []
+
+        def act(rng, sc, mv, shape=shape, a=a, b=b, c=c, ref=ref, bref=bref, stranger=stranger, dev2=dev2, tk=tk):
+            rd, rc, last, loaded = pn_marks(mv, tk, a)
+            o = []
+            if rng.random() < 0.3 and rc < last and not stranger and mv is not None and mv.attached(2 * a, tk):
+                o.append(("note", [2 * a, ref, "recv", rng.randint(rc + 1, max(rc + 1, last - 1))]))   # a genuine partial acknowledgement first
+            if shape == "unsub":
+                o.append(("unsub", [2 * a, ref]))
+            elif shape == "gunsub" and not stranger:
+                o.append(rng.choice([("unsub", [2 * a, ref]), ("evict", [2 * b, "g1", a])]))
+            elif shape == "detached":
+                o.append(("det", [2 * a, ref]))
+                if mv is not None and mv.attached(dev2, tk) and rng.random() < 0.5:
+                    o.append(("det", [dev2, ref]))
+            elif shape == "perm":
+                if rng.random() < 0.6:
+                    o.append(("want", [2 * a, ref, rng.choice([29, 29, 27, 21])]))     # a gives up R / W / R+P: JWPA / JRPA / JWA
+                else:
+                    o.append(("given", [2 * b, bref, a, rng.choice([29, 29, 27])]))    # b takes R / W away from a
+            return o
+        plan.append(act)
+        for j in range(rng.randint(3, 6)):
+            def probe(rng, sc, mv, j=j, shape=shape, a=a, b=b, ref=ref, bref=bref, dev2=dev2, tk=tk):
+                rd, rc, last, loaded = pn_marks(mv, tk, a)
+                o = []
+                sids = [2 * a - 1, 2 * a - 1, 2 * a, dev2]
+                sid = sids[0] if j == 0 else rng.choice(sids)
+                att = mv is not None and mv.attached(sid, tk)
+                r = rng.random()
+                if att and r < 0.5:
+                    what = rng.choice(["read", "kp", "kp", "read", "xx"])
+                    seq = 0 if (what == "kp" and rng.random() < 0.85) else pn_aim(rng, rc, rd, last, rng.random() < 0.6)
+                    o.append(("note", [sid, ref, what, seq]))
+                else:
+                    o.append(("note", [sid, ref, "recv", pn_aim(rng, rd, rc, last, j == 0 or rng.random() < 0.65)]))
+                if rng.random() < 0.2:
+                    o.append(o[0])                    # the same note again
+                return o
+
+            def after(rng, sc, mv, shape=shape, a=a, b=b, ref=ref, bref=bref, dev2=dev2, tk=tk):
+                rd, rc, last, loaded = pn_marks(mv, tk, b)
+                r = rng.random()
+                o = []
+                if r < 0.25:
+                    o.append(("pub", [2 * b, bref]))
+                elif r < 0.40 and rc < last:
+                    o.append(("note", [2 * b, bref, rng.choice(["recv", "read"]), rng.randint(rc + 1, last)]))
+                elif r < 0.47:
+                    o.append(("note", [2 * b, bref, "kp", 0]))
+                elif r < 0.57:
+                    o.append(("att", [rng.choice([2 * a, dev2]), ref, 0]))      # a comes back (re-subscribes when it had left)
+                elif r < 0.64:
+                    o.append((rng.choice(["det", "att"]), [rng.choice([2 * a - 1, 2 * b - 1]), "me"] + [0]))
+                elif r < 0.70:
+                    sx = rng.choice([2 * a, dev2, 2 * b])
+                    o.append(("det", [sx, ref if sc.sessions[sx] == a else bref]))
+                elif r < 0.75:
+                    o.append(("want", [2 * b, bref, rng.choice([23, 31, 29])]))   # b mutes / un-mutes / gives up R
+                elif r < 0.79:
+                    o.append(("disc", [rng.choice([2 * a - 1, dev2])]))
+                return o
+            plan += [probe, after]
+        plan.append(lambda rng, sc, mv: [("unloadall", [])])
+        scns.append(sc)
+        plans[sc.id] = plan
+    for r in range(max(len(p) for p in plans.values())):
+        lines = []
+        for sc in scns:
+            lines += sc.lines()
+        rc_, out, err = ctx.run_model("c09x", lines)
+        flat = []
+        for o in out:
+            flat += o.split("\n")
+        model = pn_parse(flat)
+        for sc in scns:
+            if r < len(plans[sc.id]):
+                blocks = model.get(sc.id) or []
+                mv = PNView(blocks[-1]) if blocks else None
+                new = plans[sc.id][r](rng, sc, mv)
+                sc.ops = list(sc.ops) + [(k, [str(x) for x in a]) for k, a in new]
+    for sc in scns:
+        sc.ops = [(k, [str(x) for x in a]) for k, a in sc.ops]
+    return scns
+
+
+def pn_run_impl(ctx, scns, tag="pn"):
+    import os
+    import subprocess
+    import vlib
+    fin = os.path.join(ctx.work, "scn_%s.in" % tag)
+    fout = os.path.join(ctx.work, "scn_%s.impl" % tag)
+    with open(fin, "w") as f:
+        for sc in scns:
+            f.write("\n".join(sc.lines()) + "\n")
+    if os.path.exists(fout):
+        os.remove(fout)
+    env = dict(vlib.GOENV, VERIF_IN=fin, VERIF_OUT=fout)
+    p = subprocess.run([os.path.join(vlib.BUILD, "maindrv.test"), "-test.run", "^TestVerifC09xPresNotes$", "-test.count=1", "-test.timeout=3000s"],
+                       stdout=subprocess.PIPE, stderr=subprocess.STDOUT, env=env, cwd=os.path.join(vlib.REPO, "server"), timeout=3400)
+    out = p.stdout.decode("utf8", "replace")
+    lines = open(fout).read().split("\n") if os.path.exists(fout) else []
+    log = "\n".join(l for l in out.split("\n") if not (len(l) > 3 and l[0] in "IWE" and l[1:3] == "20"))
+    return p.returncode, pn_parse(lines), log
+
+
+def pn_run_model(ctx, scns):
+    lines = []
+    for sc in scns:
+        lines += sc.lines()
+    rc, out, err = ctx.run_model("c09x", lines)
+    flat = []
+    for o in out:
+        flat += o.split("\n")
+    return rc, pn_parse(flat), err
+
+
+def pn_diff(i, m, is_note):
+    """C10's projection (frames, replies, tables, counters, rows) plus C09's: marks in cache and store, lastID / seqid,
+    and for a note every {info} frame with its From"""
+    from props import c10
+    d = c10.diff_op(i, m)
+    if sorted(i.get("marks", [])) != sorted(m.get("marks", [])):
+        d.append(("marks", [x for x in i["marks"] if x not in m["marks"]], [x for x in m["marks"] if x not in i["marks"]]))
+    if is_note:
+        import re
+        fi = sorted(re.sub(r" seq=\S+", "", x) for x in i.get("info", []))
+        fm = sorted(m.get("info", []))
+        if fi != fm:
+            d.append(("info", [x for x in fi if x not in fm], [x for x in fm if x not in fi]))
+    return d
+
+
+def pres_notes(ctx):
+    """Clauses 'a mark moves only when its user ... sends a note while subscribed with read permission', 'every invalid
+    note is dropped without any reply or side effect', 'never the originating session', 'name the true sender and the
+    recipient's own name for the topic' on p2p / group topics with unsubscribed (deleted) parties and with sessions
+    attached to 'me' only: judged on the presence slice (coq/Sys/Pres.v, theorems c09_pres_* of PropC09.v) with the C10
+    driver's scenarios and sessions (zz_verif_c09x_test.go adds full {info} frames, adapter calls, marks)."""
+    from props import c10
+    quick = ctx.tier == "quick"
+    if ctx.replay:
+        rp = json.load(open(ctx.replay))["replay"]
+        if not (isinstance(rp, dict) and rp.get("pres_part")):
+            return
+        sc = c10.Scn("replay")
+        import re
+        sc.nusers = int(re.search(r"users=(\d+)", rp["head"][0]).group(1))
+        sc.sessions = {int(l.split()[1]): int(l.split()[2]) for l in rp["head"][1:]}
+        sc.ops = [(o[0], [str(x) for x in o[1]]) for o in rp["ops"]]
+        scns = [sc]
+    else:
+        scns = [s for s in c10.fixed_cases() if s.profile == "rm"]
+        scns += pn_gen(ctx, 120 if quick else 1500)
+        for i in range(30 if quick else 500):
+            scns.append(c10.gen_rm(ctx.rng, "rm%d" % i))
+        for sc in scns:
+            sc.ops = [(k, [str(x) for x in a]) for k, a in sc.ops]
+    import time
+    t0 = time.time()
+    rc, impl, log = pn_run_impl(ctx, scns)
+    t_impl = time.time() - t0
+    bad = next((sc for sc in scns if sc.id not in impl or len(impl[sc.id]) != len(sc.ops)), None)
+    if rc != 0 or bad is not None:
+        ctx.violation("monitor", "server-crashed", "the server process died or stopped answering in the presence-notes part (scenario %s): %s"
+                      % (bad.id if bad else "?", log[-1200:]),
+                      {"pres_part": True, "head": bad.head if bad else [], "ops": [list(o) for o in bad.ops] if bad else []})
+        return
+    rcm, model, err = pn_run_model(ctx, scns)
+
+    def mon(sc, blocks):
+        res = pn_monitor(sc, [PNView(b) for b in blocks])
+        for k, b in enumerate(blocks):
+            if b["hang"]:
+                res.append(("hang", k, b["hang"]))
+        return res
+    fails = {}
+    classes = {}
+    for sc in scns:
+        for law, k, detail in mon(sc, impl[sc.id]):
+            fails.setdefault(law, []).append((sc, k, detail))
+    known = {f["key"] for f in ctx.load_findings() if f["property"] == ctx.pid}
+    nshrunk = 0
+    for law, lst in fails.items():
+        sc, k, detail = min(lst, key=lambda x: x[1])
+        small = sc.clone(sc.ops[:k + 1])
+        if nshrunk < 4 and not ctx.replay and len(small.ops) > 4 and law not in known:
+            nshrunk += 1
+
+            def still_bad(c, law=law):
+                rc2, im2, _ = pn_run_impl(ctx, [c], tag="pnshrink")
+                return rc2 == 0 and c.id in im2 and len(im2[c.id]) == len(c.ops) and any(l == law for l, _, _ in mon(c, im2[c.id]))
+            small = T.shrink(ctx, small, still_bad, budget=10 if quick else 60)
+        ctx.violation("monitor", law, "law %s fails on the implementation's trace (presence-notes part, %d cases this run): %s" % (law, len(lst), detail),
+                      {"pres_part": True, "head": small.head, "ops": [list(o) for o in small.ops], "law": law, "detail": detail, "cases_failing": len(lst)})
+    mism, unmodelled = [], 0
+    if rcm != 0:
+        ctx.violation("proof", "runner-crashed", "model runner (c09x) failed: " + err[-1200:], {"theorem_or_obligation": "model runner c09x"})
+    else:
+        for sc in scns:
+            io, mo = impl[sc.id], model.get(sc.id, [])
+            if len(io) != len(mo):
+                mism.append((sc, -1, [("shape", len(io), len(mo))]))
+                continue
+            for k in range(len(io)):
+                if mo[k]["unmodelled"]:
+                    unmodelled += 1
+                    break
+                d = pn_diff(io[k], mo[k], sc.ops[k][0] == "note")
+                if d:
+                    mism.append((sc, k, d))
+                    break
+        if mism and not [l for l in fails if l not in known]:
+            sc, k, d = min(mism, key=lambda x: x[1])
+            base = sc.clone(sc.ops[:k + 1]) if k >= 0 else sc
+            ctx.violation("corr", "correspondence-pres-" + (sc.ops[k][0] if k >= 0 else "shape"),
+                          "presence model and implementation disagree on %d of %d note scenarios (frames, {info} From, marks in cache and store, tables, rows "
+                          "at quiescence); first: op %d %s: %s; no law failure on this run's histories"
+                          % (len(mism), len(scns), k, sc.ops[k] if k >= 0 else "", json.dumps(d, default=str)[:900]),
+                          {"correspondence": "C09 projection of the presence slice at quiescence", "pres_part": True, "head": base.head,
+                           "ops": [list(o) for o in base.ops], "diff": d})
+    # measured distribution of the notes, on the implementation's trace
+    dist, cells = {}, {"unsubscribed_seq_in_(recv,lastID]": 0, "accepted_recv_from_session_on_me_only": 0,
+                       "accepted_recv_from_session_attached_to_nothing": 0, "info_frames_on_me": 0, "info_frames_in_topic": 0}
+    notes = 0
+    for sc in scns:
+        views = [PNView(b) for b in impl[sc.id]]
+        prev = PNView(None)
+        for k, v in enumerate(views):
+            kind, args = sc.ops[k]
+            if kind == "note":
+                notes += 1
+                if v.b["skipped"]:
+                    key = ("not sent (read/kp from a detached session)", "-")
+                else:
+                    sid, ref, what, seq = int(args[0]), args[1], args[2], int(args[3])
+                    u = sc.sessions[sid]
+                    tk = c10.rel_topic(u, ref)
+                    cls, why = pn_note_class(prev, sid, u, tk, what, seq)
+                    onme = prev.attached(sid, "m%d" % u)
+                    ontop = prev.attached(sid, tk)
+                    moved = prev.ms.get((tk, u)) != v.ms.get((tk, u))
+                    outcome = ("stored" if moved else "") + (" relayed" if v.info else "") or \
+                        ("nobody to relay to" if (cls == "valid" and what == "kp") else "dropped silently")
+                    key = ("%s%s" % (cls, (": " + why.split(" (")[0].split(" is ")[0]) if why else ""),
+                           "%s, %s" % ("attached" if ontop else ("on 'me' only" if onme else "attached to nothing"), outcome.strip()))
+                    if cls == "unsubscribed" and what == "recv" and tk in prev.topics:
+                        r = prev.rows.get((tk, u))
+                        if prev.mc.get((tk, u), prev.ms.get((tk, u), (0, 0)))[1] < seq <= prev.lc.get(tk, 0):
+                            cells["unsubscribed_seq_in_(recv,lastID]"] += 1
+                    if cls == "valid" and what == "recv" and not ontop:
+                        cells["accepted_recv_from_session_on_me_only" if onme else "accepted_recv_from_session_attached_to_nothing"] += 1
+                    cells["info_frames_on_me"] += sum(1 for i in v.info if i[1] == "me")
+                    cells["info_frames_in_topic"] += sum(1 for i in v.info if i[1] != "me")
+                dist.setdefault(key[0], {})
+                dist[key[0]][key[1]] = dist[key[0]].get(key[1], 0) + 1
+            prev = v
+    empty = [c for c, n in cells.items() if n == 0]
+    if empty and not ctx.replay:
+        ctx.notes.append("presence-notes part: required cells not visited this run: %s" % empty)
+    for a_ in ("presence-notes part: lossless network (no queue of hub.routeSrv / hub.routeCli / Topic.serverMsg / Topic.clientMsg overflows)",
+               "presence-notes part: one handler at a time per topic; per-(sender,destination) FIFO"):
+        if a_ not in ctx.assumptions:
+            ctx.assumptions.append(a_)
+    ctx.coverage["pres_notes"] = {
+        "scenarios": len(scns), "operations": sum(len(sc.ops) for sc in scns), "note_requests": notes,
+        "law_failures": {l: len(v) for l, v in fails.items()}, "correspondence_mismatches": len(mism),
+        "histories_compared_up_to_an_unmodelled_request": unmodelled, "impl_wall_s": round(t_impl, 1),
+        "note_distribution": {"how": "every {note} of the part, classified on the implementation's state before it (demanded handling: reason) x (where the session was attached, observed outcome)",
+                              "by_demanded_handling": dist, "required_cells": cells},
+        "rule": "removal histories of C10 (fixed f_*_removed, profile rm) + model-guided note scenarios (tools/props/c09.py pn_gen): users a, b (+c), "
+                "observer session on 'me', worker session, a second device; p2p topic (or a group owned by b); a publishes once, b 2-4 times; then a "
+                "unsubscribes / leaves or is evicted from the group / was never invited / detaches / gives up R or W while b keeps the topic loaded; "
+                "probes: {note recv} from a's observer, worker and second device with seq aimed from the extracted model's marks inside (recv, lastID] "
+                "and at recv, recv-1, 0, -1, 1, lastID+1, far, read; read / typing / unknown-kind notes from attached sessions; duplicates; interleaved "
+                "with b's publishes and notes, a's re-subscription, mute/un-mute, attach/detach/disconnect of observers; final unload of every idle topic",
+        "trusted_base": ["harness/overlay/server/zz_verif_c09x_test.go + zz_verif_c10_test.go (pScn), harness/runner/r_c09x.ml + r_pres.ml, "
+                         "python laws of tools/props/c09.py pn_monitor; presence-model scope and the lossless-network hypothesis as stated for C10"]}
+
+
 def run(ctx):
     quick = ctx.tier == "quick"
     ok, _ = ctx.build_runner()
     ok2, _ = ctx.build_main()
     if ok and ok2:
         relay_audience(ctx)
+        pres_notes(ctx)
+    if ctx.replay:
+        rp = json.load(open(ctx.replay)).get("replay")
+        if isinstance(rp, dict) and (rp.get("pres_part") or rp.get("relay_part")):
+            # the replay belongs to one of the two slice parts: only that part (and the proofs) is re-run
+            import vlib
+            ctx.coq_props(())
+            vlib.proof_violation(ctx)
+            ctx.finish()
 
     def guided(ctx, total):
         return gen_guided(ctx, 110 if quick else 1500)
